@@ -9,7 +9,7 @@ cp -r /repo/src "$S/src"; cp -r /repo/tests/testdocs "$S/tests/testdocs"
 ( cd "$S" && patch -p1 -s < "$P" ) || { echo "patch failed"; rm -rf "$S"; exit 2; }
 cd /verif
 for c in "$@"; do
-  VERIF_REPO_SRC="$S/src" ./run_check.sh "$c" quick 2>&1 | grep -v conda | cut -c1-300
+  VERIF_EVIDENCE_DIR="$S/evidence" VERIF_REPLAY_DIR="$S/replays" VERIF_REPO_SRC="$S/src" ./run_check.sh "$c" quick 2>&1 | grep -v conda | cut -c1-300
   echo "exit=$? ($c)"
 done
 rm -rf "$S"
